@@ -86,6 +86,50 @@ CLAIMS["C16"] = dict(
     technique="static analysis: unit/dimension inference over the AST + sibling-identity alignment",
     design="§3 E8/E6, §4 C16", engine="E8")
 
+CLAIMS["C05"] = dict(
+    category="other",
+    text="Static decision of necessary clauses: the open-path contribution table (IsContributingOpen) and the toggle condition applied where an "
+         "open edge crosses a closed edge (prefix of IntersectEdges) are extracted by abstract interpretation over a verified-uniform partition and "
+         "equal the definition on every reachable cell; AddPaths_ drops a trailing vertex equal to the first only for closed paths; BuildPath64 and "
+         "BuildPathD treat open paths alike.",
+    note="Positions of the cuts, lengths and independence of the closed solution are NOT decided.",
+    technique="static analysis: abstract interpretation of decision code over finite partitions + sibling identity",
+    design="§3 E3/E6, §4 C05", engine="E3")
+CLAIMS["C08"] = dict(
+    category="other",
+    text="Static decision of necessary clauses: Rect::Contains / Intersects / IsEmpty are exact on every weak ordering of rectangle and path bounds "
+         "(3682 cells, exhaustive) and RectClip64::Execute uses them as 'outside -> nothing, inside -> the input path unchanged'; nothing written "
+         "while clipping one path is read while clipping the next and the scratch containers are empty at every exit ('path by path').",
+    note="The location state machine, corner insertion and TidyEdges (the behaviour for crossing paths) are NOT decided.",
+    technique="static analysis: abstract interpretation over orderings + loop-carried-state dataflow",
+    design="§3 E3/E2, §4 C08", engine="E3")
+CLAIMS["C13"] = dict(
+    category="other",
+    text="Static decision of necessary clauses: the extracted closed contribution table is symmetric under path reversal (Positive<->Negative with "
+         "negated winding numbers) and under subject/clip exchange for Intersection, Union, Xor; LocMinSorter, IntersectListSort and HorzSegSorter are "
+         "strict weak orders depending only on their keys (all triples over a domain realising every weak ordering).",
+    note="Permutation/rotation invariance of the sweep (IsValidAelOrder tie-breaking) and the algebraic identities are NOT decided.",
+    technique="static analysis: table symmetries on the abstractly interpreted decision function + comparator axioms by exhaustive interpretation",
+    design="§3 E3, §4 C13", engine="E3")
+CLAIMS["C15"] = dict(
+    category="other",
+    text="Static sibling identity: each of ~500 functions of the USINGZ build equals the plain build's function after erasing Z-only constructs "
+         "(aligned node by node; the plain build has no z member, so z cannot flow into x, y or control); USINGZ-only functions write only z; "
+         "must-follow analysis: every vertex created at a crossing in IntersectEdges reaches SetZ on all paths; DoSplitOp calls the callback before "
+         "storing the point; SetZ's decision table (end point z first, subject before clip, else DefaultZ).",
+    note="Sufficient-condition check: a one-sided behaviour-preserving rewrite of an #ifdef branch is reported. Trusted: callbacks write only pt.z. "
+         "NOT decided: that the vertex a callback saw survives CleanCollinear.",
+    technique="static analysis: AST alignment modulo named patterns + forward may-pending dataflow + interpreted decision table",
+    design="§3 E6/E7, §4 C15", engine="E6")
+CLAIMS["C18"] = dict(
+    category="other",
+    text="Static decision of necessary clauses on both multiplication code paths (the portable one is forced into an analysed configuration): no "
+         "floating-point expression in CrossProductSign / ProductsAreEqual / IsCollinear / TriSign / Multiply and products only in 128 bits; the "
+         "portable sign logic equals sign(sign_ab*|ab| - sign_cd*|cd|) on every consistent cell; Multiply's partial sums cannot wrap (interval proof).",
+    note="That Multiply recombines the partial products correctly, PointInPolygon, GetSegmentIntersectPt and Area are numeric and NOT decided.",
+    technique="static analysis: type rule on the AST + abstract interpretation over sign/ordering cells + interval analysis",
+    design="§3 E3, §4 C18", engine="E3")
+
 NOT_APPLICABLE = {
     "C02": "exactness on degenerate rectilinear input is a runtime interplay of horizontal joins; no structural clause is a necessary condition (DESIGN §4)",
     "C06": "every clause is a distance/region statement over all polygons and deltas; nothing is visible in the shape of the code (DESIGN §4)",
@@ -138,7 +182,11 @@ def main():
              "kind_free_text": "global state, shared-data immutability, thread-safe externals, determinism lint"},
             {"name": "E2", "path": "/verif/vlib/engines/e2_state.py", "serves_properties": ["C12", "C07"],
              "kind_free_text": "member-state hygiene: def-before-use, clean-at-exit, Clear completeness, loop-carried state (AST effects + vlib/flow.py)"},
-            {"name": "E3", "path": "/verif/vlib/engines/e3_tables.py", "serves_properties": ["C01"],
+            {"name": "E6", "path": "/verif/vlib/engines/e6_siblings.py", "serves_properties": ["C15", "C16", "C05"],
+             "kind_free_text": "sibling identity: USINGZ vs plain per function, 64 vs D builders"},
+            {"name": "E7", "path": "/verif/vlib/engines/e7_zaccount.py", "serves_properties": ["C15"],
+             "kind_free_text": "Z accounting must-follow analysis and SetZ table"},
+            {"name": "E3", "path": "/verif/vlib/engines/e3_tables.py", "serves_properties": ["C01", "C05", "C08", "C13", "C18"],
              "kind_free_text": "finite decision tables by abstract interpretation of the AST (vlib/evalx.py) against definitional oracles"},
             {"name": "E4", "path": "/verif/vlib/engines/e4_layout.py", "serves_properties": ["C17"],
              "kind_free_text": "flat-array layout shapes and exported-parameter forwarding"},
